@@ -62,8 +62,9 @@ Qed.
 Lemma read_queue_nil tn x : qev x = [] -> let x1 := fst (fst (read_queue K tn x)) in qev x1 = [] /\ tbuf x1 = tbuf x.
 Proof.
   intro Hq. unfold read_queue. rewrite Hq. cbn [length read_loop].
-  destruct (prepare_read ideal (c_cap K) (q x)) as [q1 r].
-  destruct r; rewrite Hq; cbn; rewrite ?Hq; auto.
+  destruct (prepare_read ideal (c_cap K) (q x)) as [q1 r]. destruct (u_blocked K x).
+  - rewrite Hq. cbn. rewrite ?Hq. auto.
+  - destruct r; rewrite Hq; cbn; rewrite ?Hq; auto.
 Qed.
 Lemma read_step_pu s u : PU s ->
   let '(x1, notes, esc) := read_queue K (tsnow s) (th s u) in
@@ -115,7 +116,7 @@ Qed.
 
 Lemma fstep_pu s o : PU s -> PU (fstep K s o).
 Proof.
-  intro H. destruct o as [t e|t|t|t|t|l v|k v|k m|d]; cbn [fstep]; try exact H.
+  intro H. destruct o as [t e|t|t|t|t|l v|k v|k m|d|t c]; cbn [fstep]; try exact H.
   - destruct (pend (th s t)); [exact H|]. destruct (tvalid (th s t) && passes_logger s e); [|exact H].
     intro u. cbn. unfold upd. destruct (Nat.eqb_spec u t) as [->|]; apply H.
   - destruct (memb t (registered s) || negb (tvalid (th s t))); [exact H|]. intro u. cbn.
@@ -137,6 +138,7 @@ Proof.
     + intro u. cbn. unfold upd. destruct (Nat.eqb_spec u t) as [->|]; apply H.
     + destruct (tvalid (th s t)); [|exact H]. intro u. cbn. unfold upd. destruct (Nat.eqb_spec u t) as [->|]; apply H.
   - destruct (existsb (N.eqb m) (sfilt (sk s k)) || (m =? 0)); exact H.
+  - intro u. cbn. unfold upd. destruct (Nat.eqb_spec u t) as [->|]; apply H.
 Qed.
 
 Lemma bstep_pu s : PU s -> PU (bstep K s).
